@@ -80,6 +80,9 @@ func c01Directed(tier string) [][]uint64 {
 	for _, place := range []uint64{1, 2} {
 		for _, kind := range []uint64{5, 0, 1} {
 			out = append(out, []uint64{0, 0, 0, 0, place, 0, 0, 0, 0, enc, 0, kind, 0, 0, 0, 0, 0, 0, 0, 0, 1})
+			// the same with every later choice forced to its simplest value (plain layout, plain signature,
+			// raw delivery), so that the case does not depend on what the run seed draws for them
+			out = append(out, append([]uint64{0, 0, 0, 0, place, 0, 0, 0, 0, enc, 0, kind, 0, 0, 0, 0, 0, 0, 0, 0, 1}, make([]uint64, 160)...))
 		}
 		// the genuine signed assertion inside a wrapper element as attacker-encrypted plaintext
 		for w := uint64(0); w < 4; w++ {
